@@ -427,7 +427,7 @@ class FunctionExtractor:
     def _loop(self, n, var, pos):
         k = self.nloops
         self.nloops += 1
-        self.loop_shape.append([n.get('kind'), self._depth])
+        self.loop_shape.append(['Loop', self._depth])     # for/while are interchangeable for the contracts; nesting is what matters
         ln = _line_of(self.src, pos)
         self.ed.insert(pos, '\n#ifdef LOOP_%s_%d\nLOOP_%s_%d(%s)\n#endif\n#line %d\n' % (self.fname, k, self.fname, k, var, ln))
 
@@ -450,9 +450,20 @@ class FunctionExtractor:
             self.walk(c)
         self._depth -= 1
 
+    @staticmethod
+    def _first_var(x):
+        if x.get('kind') == 'DeclRefExpr' and x.get('referencedDecl', {}).get('kind') == 'VarDecl':
+            return x['referencedDecl']['name']
+        for c in x.get('inner', []) or []:
+            v = FunctionExtractor._first_var(c)
+            if v:
+                return v
+        return ''
+
     def v_WhileStmt(self, n):
         body = n['inner'][-1]
-        self._loop(n, '', _off(body['range']['begin']))
+        # a `while (i < n)` rewrite of a counted `for` keeps its loop contract: the loop variable is the first variable of the condition
+        self._loop(n, self._first_var(n['inner'][0]) if n['inner'] and n['inner'][0] else '', _off(body['range']['begin']))
         self._depth += 1
         for c in n['inner']:
             self.walk(c)
